@@ -92,6 +92,78 @@ class _RawFlat(Foreign):
         return NotImplemented
 
 
+class _Pickled:
+    """what a pickle holds of an object of a package class: the class and the state its __getstate__ gave (its attributes when it has none)"""
+    def __init__(self, cls, state, custom):
+        self.cls, self.state, self.custom = cls, state, custom
+
+
+def snapshot(obj, memo=None, seen=None, interp=None):
+    """what a pickle holds of obj: its state when it was dumped.  Objects of package classes are reduced through their own __getstate__ (interpreted),
+    recursively; arrays and plain values are immutable here.  ``memo`` is a Pickler's memo {id(object): its first copy}: an object the same Pickler has
+    already written is written as a reference to that first copy, whatever it holds now."""
+    seen = {} if seen is None else seen
+    if isinstance(obj, Obj):
+        if memo is not None and id(obj) in memo:
+            return memo[id(obj)][1]
+        if id(obj) in seen:
+            return seen[id(obj)]
+        rep = _Pickled(obj.cls, {}, False)
+        seen[id(obj)] = rep
+        if memo is not None:
+            memo[id(obj)] = (obj, rep)          # (the object is kept alive so that its id stays its own)
+        state = None
+        gs = interp.repo.find_member(obj.cls, '__getstate__') if interp is not None and obj.cls is not None else None
+        if gs is not None and gs[0] == 'method':
+            st_ = interp.call(gs[1], [], selfv=obj)
+            if isinstance(st_, dict):
+                state, rep.custom = st_, True
+            else:
+                rep.state = Unk('__getstate__ of %s not modelled: %r' % (obj.cls.name, st_))
+                return rep
+        if state is None:
+            state = dict(obj.attrs)
+        rep.state = {k: snapshot(v, memo, seen, interp) for k, v in state.items()}
+        return rep
+    if isinstance(obj, list):
+        return [snapshot(v, memo, seen, interp) for v in obj]
+    if isinstance(obj, tuple):
+        return tuple(snapshot(v, memo, seen, interp) for v in obj)
+    if isinstance(obj, dict):
+        return {k: snapshot(v, memo, seen, interp) for k, v in obj.items()}
+    return obj
+
+
+def materialise(v, interp, memo=None):
+    """the object a load gives back for what snapshot() stored: a new object of the class, filled through its __setstate__ (interpreted) - or attribute
+    by attribute when the class has none.  ``memo`` {id(stored copy): loaded object} is the memo of the load (or of the Unpickler that is doing several)."""
+    memo = {} if memo is None else memo
+    if isinstance(v, _Pickled):
+        if id(v) in memo:
+            return memo[id(v)]
+        o = Obj(v.cls, {})
+        memo[id(v)] = o
+        if isinstance(v.state, Unk):
+            o.attrs['__state__'] = v.state
+            return o
+        state = {k: materialise(x, interp, memo) for k, x in v.state.items()}
+        ss = interp.repo.find_member(v.cls, '__setstate__') if interp is not None and v.cls is not None else None
+        if ss is not None and ss[0] == 'method':
+            r = interp.call(ss[1], [state], selfv=o)
+            if isinstance(r, Unk):
+                o.attrs['__state__'] = r
+        else:
+            o.attrs.update(state)
+        return o
+    if isinstance(v, list):
+        return [materialise(x, interp, memo) for x in v]
+    if isinstance(v, tuple) and not (v and v[0] in ('RAW', 'RAWARR', 'REF')):
+        return tuple(materialise(x, interp, memo) for x in v)
+    if isinstance(v, dict):
+        return {k: materialise(x, interp, memo) for k, x in v.items()}
+    return v
+
+
 class PickleBytes(Foreign):
     """pickle.dumps(obj): the bytes of one pickle, carried as the object they hold"""
     def __init__(self, obj):
@@ -102,12 +174,18 @@ class _Pickler(Foreign):
     """pickle.Pickler(handle, protocol): dump(obj) appends one item to the stream"""
     def __init__(self, stream):
         self.stream = stream
+        self.memo = {}
 
     def sl_method(self, interp, name, args, kw, node):
         if name == 'dump' and len(args) == 1:
-            self.stream.items.append(args[0])
+            o = args[0]
+            if isinstance(o, Obj) and id(o) in self.memo:
+                self.stream.items.append(('REF', self.memo[id(o)][1]))          # already written by this Pickler: a reference to what was written then
+            else:
+                self.stream.items.append(snapshot(o, self.memo, None, interp))
             return None
         if name == 'clear_memo':
+            self.memo.clear()
             return None
         return NotImplemented
 
@@ -133,40 +211,46 @@ class RecHooks(Hooks):
             self.opened.append((args, kwargs))
             return self.stream
         if name in ('pickle.dump', '_pickle.dump', 'cPickle.dump') and len(args) >= 2 and isinstance(args[1], PickleStream):
-            args[1].items.append(args[0])
+            args[1].items.append(snapshot(args[0], None, None, interp))          # the state of the object now
             return None
         if name in ('pickle.load', '_pickle.load', 'cPickle.load') and args and isinstance(args[0], PickleStream):
-            return _load(args[0])
+            return _load(args[0], interp)
         if name in ('pickle.Unpickler', '_pickle.Unpickler') and args and isinstance(args[0], PickleStream):
             return _Unpickler(args[0])
         if name in ('pickle.Pickler', '_pickle.Pickler') and args and isinstance(args[0], PickleStream):
             return _Pickler(args[0])
         if name in ('pickle.dumps', '_pickle.dumps') and args:
-            return PickleBytes(args[0])
+            return PickleBytes(snapshot(args[0], None, None, interp))
         if name in ('pickle.loads', '_pickle.loads') and args and isinstance(args[0], PickleBytes):
-            return args[0].obj
+            return materialise(args[0].obj, interp)
         if name.startswith('os.path.exists'):
             return True
         return NotImplemented
 
 
 class _Unpickler(Foreign):
+    """one Unpickler for several loads resolves references to objects it has loaded before (they come back as the object loaded then)"""
     def __init__(self, stream):
         self.stream = stream
+        self.memo = {}
 
     def sl_method(self, interp, name, args, kw, node):
         if name == 'load' and not args:
-            return _load(self.stream)
+            return _load(self.stream, interp, self.memo)
         return NotImplemented
 
 
-def _load(st):
+def _load(st, interp, memo=None):
     if st.pos < len(st.items):
         v = st.items[st.pos]
         st.pos += 1
-        if isinstance(v, tuple) and v and v[0] == 'RAW':
+        if isinstance(v, tuple) and v and v[0] in ('RAW', 'RAWARR'):
             raise PyRaise('UnpicklingError', 'raw bytes where a pickle is expected')
-        return v
+        if isinstance(v, tuple) and v and v[0] == 'REF':
+            if memo is not None and id(v[1]) in memo:
+                return memo[id(v[1])]          # the object this Unpickler loaded when it met the first copy
+            raise PyRaise('UnpicklingError', 'a reference into the memo of another load')
+        return materialise(v, interp, memo)
     if st.cut and not getattr(st, 'cut_raised', False):
         st.cut_raised = True          # the partial item is consumed by the failing load: the file is at its end afterwards
         raise PyRaise(st.cut, 'the file ends inside this item')
@@ -176,11 +260,15 @@ def _load(st):
 # ------------------------------------------------------------------ symbolic records
 
 def make_meta(repo, tag=''):
-    return Obj(repo.cls('fit_info', 'FitInfoMeta'), {'model_dir': 'DIR' + tag, 'filters': [{'name': 'F1' + tag}], 'extinction_law': Obj(repo.cls('extinction.extinction', 'Extinction'), {})})
+    law = Obj(repo.cls('extinction.extinction', 'Extinction'), {'_wav': symarr('lawwav' + tag, ('t',), unit=alg.sym('unit:micron')),
+                                                                  '_chi': symarr('lawchi' + tag, ('t',), unit=alg.sym('unit:cm').pow(2) / alg.sym('unit:g'))})
+    return Obj(repo.cls('fit_info', 'FitInfoMeta'), {'model_dir': 'DIR' + tag, 'filters': [{'name': 'F1' + tag}], 'extinction_law': law})
 
 
 def make_info(repo, k, meta):
-    src = Obj(repo.cls('source.source', 'Source'), {'_name': 'SRC%d' % k})
+    src = Obj(repo.cls('source.source', 'Source'), {'_name': 'SRC%d' % k, '_x': symarr('x%d' % k, (), unit=num(1)), '_y': symarr('y%d' % k, (), unit=num(1)),
+                                                      '_valid': symarr('valid%d' % k, (W,), unit=num(1)), '_flux': symarr('flux%d' % k, (W,), unit=num(1)),
+                                                      '_error': symarr('error%d' % k, (W,), unit=num(1))})
     return Obj(repo.cls('fit_info', 'FitInfo'), {'source': src, 'av': symarr('av%d' % k, (R,), unit=num(1)), 'sc': symarr('sc%d' % k, (R,), unit=num(1)),
                                                   'chi2': symarr('chi2_%d' % k, (R,), unit=num(1)), 'model_id': symarr('id%d' % k, (R,), unit=num(1)),
                                                   'model_name': symarr('name%d' % k, (R,)), 'model_fluxes': symarr('mf%d' % k, (R, W), unit=num(1)), 'meta': meta})
@@ -343,11 +431,12 @@ def _check_write_read(ctx, rule_w, rule_r, nlen):
     if err is not None:
         ctx.undecided(rule_w, 'records written with one shared metadata block', where_w, 'writing not modelled: %r' % (err,))
         return False
-    head = st.items[:len(st.items) - 3] if len(st.items) >= 3 else []
-    recs = st.items[len(head):]
-    ok_recs = len(recs) == 3 and all(a is b for a, b in zip(recs, infos))
+    held = [materialise(x, Iw) for x in st.items]          # what the stream holds, as objects
+    head = held[:len(held) - 3] if len(held) >= 3 else []
+    recs = held[len(head):]
+    ok_recs = len(recs) == 3 and all(same_record(a, b) for a, b in zip(recs, infos))
     vals = [meta.attrs['model_dir'], meta.attrs['filters'], meta.attrs['extinction_law']]
-    ok_head = len(head) >= 1 and all(any(h is v or (not isinstance(v, Obj) and h == v) for h in head) for v in vals) and not any(any(h is i for i in infos) for h in head)
+    ok_head = len(head) >= 1 and all(any(same_value(h, v) for h in head) for v in vals) and not any(any(same_record(h, i) for i in infos) for h in head)
     plain = ok_recs and ok_head
     if plain:
         ctx.ok(rule_w, 'every record is written as one pickle, in the order given', where_w, 'stream ends with the %d records themselves' % len(infos))
@@ -386,9 +475,58 @@ def _check_write_read(ctx, rule_w, rule_r, nlen):
     ctx.expect(len(out) == 3 and all(same_record(a, b) for a, b in zip(out, infos)), rule_r, 'records read back', where_r, 'the records written, in order, value for value', 'reading yields %d objects that are not the %d records written, in order' % (len(out), len(infos)), 'read-records')
     ctx.expect(all(isinstance(o, Obj) and same_meta(o.attrs.get('meta'), meta) for o in out) and len(out) > 0, rule_r, 'metadata re-attached', where_r, 'every record read carries the stored model_dir, filters and extinction law',
                'records read from a file do not get the stored metadata', 'meta-reattached')
+    check_rewritten(ctx, rule_r, where_r, nlen)
     fm = Ir.getattr(f, 'meta', None, ifi.module) if f is not None else None
     ctx.expect(same_meta(fm, meta), rule_r, 'metadata sequence', where_r, 'the file object\'s meta is the stored metadata: the reader loads the header in the order the writer dumped it', 'the file object\'s meta is %r' % (fm,), 'meta-sequence')
     return True
+
+
+def check_rewritten(ctx, rule, where_, nlen=None):
+    """a record holds what the object held when it was written: the same result object written again after it was cut (keep) - and two results that share
+    one source object refilled in between - come back as two different records"""
+    repo = ctx.repo
+    ci = repo.cls('fit_info', 'FitInfoFile')
+    meta = make_meta(repo)
+    a = make_info(repo, 1, meta)
+    b = make_info(repo, 2, meta)
+    b.attrs['source'] = a.attrs['source']          # one Source instance, refilled for each line of the catalogue
+    st = PickleStream()
+    st.marks = []
+    I, f = open_file(repo, st, 'w', nlen)
+    inst = 'an object written again after it changed'
+    if isinstance(f, Unk):
+        ctx.undecided(rule, inst, where_, 'opening for writing not modelled: %r' % (f,))
+        return
+    wr = repo.find_member(ci, 'write')[1]
+    expected = []
+
+    def write(info):
+        expected.append(Obj(info.cls, {k: (Obj(v.cls, dict(v.attrs)) if isinstance(v, Obj) and k == 'source' else v) for k, v in info.attrs.items()}))
+        return I.call(wr, [info], selfv=f)
+    r1 = write(a)
+    a.attrs['chi2'] = symarr('chi2_1cut', (R,), unit=num(1))          # the result is cut (keep) and written again
+    a.attrs['av'] = symarr('av1cut', (R,), unit=num(1))
+    r2 = write(a)
+    b.attrs['source'].attrs['_name'] = 'SRC2'          # the shared source is refilled for the next line
+    b.attrs['source'].attrs['_flux'] = symarr('flux2', (W,), unit=num(1))
+    r3 = write(b)
+    I.call(repo.find_member(ci, 'close')[1], [], selfv=f)
+    if any(isinstance(r, Unk) for r in (r1, r2, r3)) or I.lost:
+        ctx.undecided(rule, inst, where_, 'writing not modelled: %r' % ([r for r in (r1, r2, r3) if isinstance(r, Unk)] or I.lost[:1],))
+        return
+    out, Ir, fr = read_records(repo, st.items, None, nlen)
+    if not isinstance(out, list):
+        if getattr(Ir, 'uncaught', None) or (isinstance(out, Unk) and 'always raises' in out.why):
+            ctx.violation(rule, inst, where_, 'a file holding the same object twice cannot be read back: %s' % (Ir.uncaught or out.why), 'rewritten-unreadable')
+        else:
+            ctx.undecided(rule, inst, where_, 'reading not modelled: %r' % (out,))
+        return
+    if any(isinstance(v_, Unk) for o in out if isinstance(o, Obj) for k_, v_ in o.attrs.items() if k_ != 'meta'):
+        ctx.undecided(rule, inst, where_, 'a value read back was not modelled')
+        return
+    okk = len(out) == 3 and all(same_record(x, y) for x, y in zip(out, expected))
+    ctx.expect(okk, rule, inst, where_, 'three records: the result as first written, the result after the cut, the next source - each as it was when written',
+               'reading gives %d records that are not, each, what its object held when it was written' % len(out), 'rewritten-object')
 
 
 def check_truncation(ctx, rule='CFG-3'):
